@@ -161,7 +161,65 @@ class PyIndex:
         for name, path, rel, src in found:
             self.modules[name] = Module(name, path, rel, src, self.computed_attrs)
 
+    def _merge_singledispatch(self):
+        """`@singledispatch def f(x): B0` + `@f.register def _(x: T): B1` ... is read as `def f(x): if isinstance(x, T): B1 ... else: B0` (the dispatch is on the
+        class of the first argument; registered classes are tried before the generic body)."""
+        import copy
+        for mod in self.modules.values():
+            bases = {st.name: st for st in mod.tree.body if isinstance(st, ast.FunctionDef) and any(
+                (isinstance(d, ast.Name) and d.id == 'singledispatch') or (isinstance(d, ast.Attribute) and d.attr == 'singledispatch') for d in st.decorator_list)}
+            if not bases:
+                continue
+            impls: Dict[str, List[Tuple[ast.AST, ast.FunctionDef]]] = {}
+            drop = set()
+            for st in mod.tree.body:
+                if not isinstance(st, ast.FunctionDef):
+                    continue
+                for d in st.decorator_list:
+                    tgt = None
+                    cls_expr = None
+                    if isinstance(d, ast.Attribute) and d.attr == 'register' and isinstance(d.value, ast.Name) and d.value.id in bases:
+                        tgt = d.value.id
+                        if st.args.args and st.args.args[0].annotation is not None:
+                            cls_expr = st.args.args[0].annotation
+                    elif isinstance(d, ast.Call) and isinstance(d.func, ast.Attribute) and d.func.attr == 'register' and isinstance(d.func.value, ast.Name) \
+                            and d.func.value.id in bases and len(d.args) == 1:
+                        tgt, cls_expr = d.func.value.id, d.args[0]
+                    if tgt is not None and cls_expr is not None and len(st.decorator_list) == 1 and st.args.args:
+                        if isinstance(cls_expr, ast.Constant) and isinstance(cls_expr.value, str):
+                            try:
+                                cls_expr = ast.parse(cls_expr.value, mode='eval').body
+                            except SyntaxError:
+                                continue
+                        impls.setdefault(tgt, []).append((cls_expr, st))
+                        drop.add(id(st))
+            for name, base in bases.items():
+                if not impls.get(name) or not base.args.args:
+                    continue
+                p0 = base.args.args[0].arg
+                chain: List[ast.stmt] = list(base.body)
+                for cls_expr, impl in reversed(impls[name]):
+                    ip = impl.args.args[0].arg
+
+                    class _R(ast.NodeTransformer):
+                        def visit_Name(self_, n):
+                            return ast.copy_location(ast.Name(id=p0, ctx=n.ctx), n) if n.id == ip else n
+                    body = [_R().visit(copy.deepcopy(b)) for b in impl.body]
+                    test = ast.Call(func=ast.Name(id='isinstance', ctx=ast.Load()), args=[ast.Name(id=p0, ctx=ast.Load()), copy.deepcopy(cls_expr)], keywords=[])
+                    node = ast.If(test=test, body=body, orelse=chain)
+                    ast.copy_location(node, impl)
+                    ast.fix_missing_locations(node)
+                    chain = [node]
+                base.body = chain
+                base.decorator_list = [d for d in base.decorator_list if not ((isinstance(d, ast.Name) and d.id == 'singledispatch') or
+                                                                              (isinstance(d, ast.Attribute) and d.attr == 'singledispatch'))]
+            mod.tree.body = [st for st in mod.tree.body if id(st) not in drop]
+
     def _unwrap_decorators(self):
+        self._merge_singledispatch()
+        self._unwrap_wrappers()
+
+    def _unwrap_wrappers(self):
         """`@deco def f(..)` where deco is a function of the package of the plain wrapping shape
                def deco(func):            [@wraps(func)]
                    def wrapper(<params>): BODY that calls func(...)
